@@ -227,7 +227,8 @@ pub fn worker_main(args: &[String]) -> i32 {
             writeln!(out, "H {}", json!({"idx": idx, "error": e, "case": case.to_json()})).unwrap();
         }
         for v in &o.violations {
-            writeln!(out, "V {}", json!({"idx": idx, "violation": v.to_json(), "case": case.to_json()})).unwrap();
+            let rc = o.replay_case.as_ref().unwrap_or(&case);
+            writeln!(out, "V {}", json!({"idx": idx, "violation": v.to_json(), "case": rc.to_json()})).unwrap();
         }
         if samples < 2 && (o.stats.nontrivial || idx + sw >= total) && si == 0 {
             samples += 1;
